@@ -33,7 +33,8 @@ def jobs(tier):
         ones = [s for s in scheds if len(s) == 1]
         threes = [s for s in scheds if len(s) == 3]
         chosen = chosen + [r.choice(ones), r.choice(threes)]
-        for s in chosen:
+        for ks, s in enumerate(chosen):
+            seed = ks % 2          # the boundary value 0 is a valid explicit seed
             script = []
             for i, w in enumerate(s):
                 p = "w%d" % (i + 1)
@@ -44,7 +45,7 @@ def jobs(tier):
                     b = METERS[mi]
                     slot = "s%d" % mi
                     script.append({"op": "make", "p": p, "d": b, "fam": fam, "kind": "baseline", "name": b.split(":")[1]})
-                    script.append({"op": "new", "p": p, "s": slot, "fam": fam, "prof": prof, "seed": 1})
+                    script.append({"op": "new", "p": p, "s": slot, "fam": fam, "prof": prof, "seed": seed})
                     script.append({"op": "fit", "p": p, "s": slot, "d": b, "ign": True})
                     rr = REPORT[b]
                     script.append({"op": "make", "p": p, "d": rr, "fam": fam, "kind": "reporting", "name": rr.split(":")[1], "obs": "orig"})
